@@ -450,3 +450,228 @@ pub fn seeds(parser: &str) -> Vec<Vec<u8>> {
     };
     v.into_iter().map(|x| x.to_vec()).collect()
 }
+
+
+// ---------------------------------------------------------------------------------------------
+// C06: numerals on and around every limit, in every numeric position of the DIMACS family
+// ---------------------------------------------------------------------------------------------
+fn type_max(lit: &str) -> i128 {
+    match lit {
+        "i8" => i8::MAX as i128,
+        "i16" => i16::MAX as i128,
+        "i32" => i32::MAX as i128,
+        _ => i64::MAX as i128,
+    }
+}
+
+fn around(rng: &mut StdRng, x: i128) -> String {
+    let v = match rng.gen_range(0..8) {
+        0 => x - 1,
+        1 | 2 => x,
+        3 | 4 => x + 1,
+        5 => x * 10,
+        6 => x + 2,
+        _ => x / 2 + 1,
+    };
+    let mut s = v.max(0).to_string();
+    if rng.gen_range(0..6) == 0 {
+        s = format!("{}{}", "0".repeat(rng.gen_range(1..9)), s);
+    }
+    s
+}
+
+pub fn gen_dimacs_bounds(kind: &str, lit: &str, rng: &mut StdRng) -> Vec<u8> {
+    let tmax = type_max(lit);
+    let interesting: [i128; 12] = [1, 2, 9, 99, 127, 128, 32767, 9_999_999, 10_000_000, 99_999_999, 100_000_000, tmax];
+    let nvars: i128 = interesting[rng.gen_range(0..12)].min(tmax);
+    let declared_vars = match rng.gen_range(0..6) {
+        0 => "0".to_string(),
+        1 => around(rng, tmax),
+        _ => nvars.to_string(),
+    };
+    let nclauses = rng.gen_range(0..4usize);
+    let declared_clauses = match rng.gen_range(0..8) {
+        0 => "0".to_string(),
+        1 => (nclauses + 1).to_string(),
+        2 => nclauses.saturating_sub(1).to_string(),
+        3 => around(rng, u64::MAX as i128),
+        _ => nclauses.to_string(),
+    };
+    let ngroups = rng.gen_range(1..4i128);
+    let mut out = String::new();
+    if rng.gen_range(0..6) != 0 {
+        out.push_str(&format!("p {} {} {}", kind, declared_vars, declared_clauses));
+        match kind {
+            "wcnf" => { let b = [10i128, u64::MAX as i128][rng.gen_range(0..2)]; out.push_str(&format!(" {}", around(rng, b))) }
+            "gcnf" => out.push_str(&format!(" {}", if rng.gen_range(0..5) == 0 { "0".to_string() } else { around(rng, ngroups) })),
+            _ => {}
+        }
+        out.push('\n');
+    }
+    let limit = declared_vars.parse::<i128>().ok().filter(|&v| v != 0).unwrap_or(tmax);
+    for _ in 0..nclauses {
+        match kind {
+            "wcnf" => { let b = [1i128, 5, i64::MAX as i128, u64::MAX as i128][rng.gen_range(0..4)]; out.push_str(&format!("{} ", around(rng, b))) }
+            "gcnf" => out.push_str(&format!("{{{}}} ", around(rng, ngroups))),
+            _ => {}
+        }
+        for _ in 0..rng.gen_range(0..3) {
+            let mag = match rng.gen_range(0..6) {
+                0 => around(rng, limit),
+                1 => around(rng, tmax),
+                2 => around(rng, i64::MAX as i128),
+                _ => rng.gen_range(1..=limit.min(1000).max(1)).to_string(),
+            };
+            if rng.gen_bool(0.5) {
+                out.push('-');
+            }
+            out.push_str(if mag == "0" { "1" } else { &mag });
+            out.push(' ');
+        }
+        out.push_str("0\n");
+    }
+    out.into_bytes()
+}
+
+// ---------------------------------------------------------------------------------------------
+// C07: one abstract value, many layouts
+// ---------------------------------------------------------------------------------------------
+pub struct DimacsValue {
+    pub kind: String,
+    pub header: Option<(u64, u64, u64)>,
+    pub clauses: Vec<(u64, Vec<i64>)>, // (weight or group, literals)
+}
+
+pub fn gen_dimacs_value(kind: &str, rng: &mut StdRng) -> DimacsValue {
+    let nvars = [1i64, 2, 5, 12, 127][rng.gen_range(0..5)];
+    let n = rng.gen_range(0..4usize);
+    let clauses: Vec<(u64, Vec<i64>)> = (0..n)
+        .map(|_| {
+            let first = match kind { "wcnf" => [0u64, 1, 7, 1000][rng.gen_range(0..4)], "gcnf" => rng.gen_range(0..3u64), _ => 0 };
+            let lits = (0..rng.gen_range(0..4)).map(|_| { let v = rng.gen_range(1..=nvars); if rng.gen_bool(0.5) { -v } else { v } }).collect();
+            (first, lits)
+        })
+        .collect();
+    let header = if rng.gen_range(0..4) != 0 {
+        Some((if rng.gen_range(0..5) == 0 { 0 } else { nvars as u64 }, if rng.gen_range(0..5) == 0 { 0 } else { n as u64 },
+              match kind { "wcnf" => 1001, "gcnf" => 2, _ => 0 }))
+    } else { None };
+    DimacsValue { kind: kind.to_string(), header, clauses }
+}
+
+pub fn render_dimacs(v: &DimacsValue, canonical: bool, rng: &mut StdRng) -> Vec<u8> {
+    let mut out = String::new();
+    let crlf = !canonical && rng.gen_range(0..4) == 0;
+    let nl = |out: &mut String, rng: &mut StdRng| {
+        if !canonical && rng.gen_range(0..5) == 0 { out.push_str([" ", "\t", "  ", " \t"][rng.gen_range(0..4)]); }
+        out.push_str(if crlf { "\r\n" } else { "\n" });
+    };
+    let sep = |rng: &mut StdRng| -> &'static str { if canonical { " " } else { [" ", " ", " ", "  ", "\t", " \t ", "\t\t"][rng.gen_range(0..7)] } };
+    let filler = |out: &mut String, rng: &mut StdRng, indent_ok: bool| {
+        if canonical { return; }
+        for _ in 0..rng.gen_range(0..3) {
+            match rng.gen_range(0..6) {
+                0 => { out.push_str(["c", "c comment", "c 1 2 0", "c\tx", "cc"][rng.gen_range(0..5)]); out.push_str(if crlf { "\r\n" } else { "\n" }); }
+                1 => { out.push_str(if crlf { "\r\n" } else { "\n" }); }
+                2 => { out.push_str([" \n", "\t\n", "  \t \n"][rng.gen_range(0..3)]); }
+                _ => {}
+            }
+        }
+        if indent_ok && rng.gen_range(0..5) == 0 { out.push_str([" ", "\t", "   "][rng.gen_range(0..3)]); }
+    };
+    let num = |x: i64, rng: &mut StdRng| -> String {
+        if !canonical && rng.gen_range(0..8) == 0 { format!("{}{}{}", if x < 0 { "-" } else { "" }, "0".repeat(rng.gen_range(1..4)), x.abs()) } else { x.to_string() }
+    };
+    filler(&mut out, rng, true);
+    if let Some((a, b, c)) = v.header {
+        out.push_str(&format!("p{}{}{}{}{}{}", sep(rng), v.kind, sep(rng), num(a as i64, rng), sep(rng), num(b as i64, rng)));
+        if v.kind != "cnf" { out.push_str(&format!("{}{}", sep(rng), num(c as i64, rng))); }
+        nl(&mut out, rng);
+    }
+    for (ci, (first, lits)) in v.clauses.iter().enumerate() {
+        filler(&mut out, rng, true);
+        match v.kind.as_str() {
+            "wcnf" => { out.push_str(&num(*first as i64, rng)); }
+            "gcnf" => { out.push_str(&format!("{{{}}}", num(*first as i64, rng))); }
+            _ => {}
+        }
+        let brk = |out: &mut String, rng: &mut StdRng| {
+            // a separator between two tokens of a clause: blanks, or a line break with optional comment / blank lines
+            if !canonical && rng.gen_range(0..5) == 0 {
+                if rng.gen_range(0..3) == 0 { out.push_str([" ", "\t"][rng.gen_range(0..2)]); }
+                out.push_str(if crlf { "\r\n" } else { "\n" });
+                for _ in 0..rng.gen_range(0..3) {
+                    match rng.gen_range(0..3) { 0 => out.push_str("c mid 0\n"), 1 => out.push_str(if crlf { "\r\n" } else { "\n" }), _ => out.push_str(" \t\n") }
+                }
+                if rng.gen_range(0..3) == 0 { out.push_str(["  ", "\t"][rng.gen_range(0..2)]); }
+            } else {
+                out.push_str(sep(rng));
+            }
+        };
+        if v.kind != "cnf" { brk(&mut out, rng); }
+        for l in lits {
+            out.push_str(&num(*l, rng));
+            brk(&mut out, rng);
+        }
+        out.push_str(if !canonical && rng.gen_range(0..8) == 0 { "-0" } else { "0" });
+        let last = ci + 1 == v.clauses.len();
+        if last && !canonical && rng.gen_range(0..3) == 0 {
+            // missing final newline (optionally trailing blanks are NOT allowed by interactive_end_of_line, so none)
+        } else {
+            nl(&mut out, rng);
+        }
+    }
+    if v.clauses.is_empty() || out.ends_with('\n') { filler(&mut out, rng, false); }
+    out.into_bytes()
+}
+
+pub struct LogValue { pub sat: Option<bool>, pub has_s: bool, pub lits: Vec<i64>, pub has_v: bool }
+
+pub fn gen_log_value(rng: &mut StdRng) -> LogValue {
+    let has_v = rng.gen_bool(0.7);
+    LogValue { sat: [Some(true), Some(false), None][rng.gen_range(0..3)], has_s: rng.gen_bool(0.8),
+        lits: if has_v { (0..rng.gen_range(0..6)).map(|_| { let v = rng.gen_range(1..40i64); if rng.gen_bool(0.5) { -v } else { v } }).collect() } else { vec![] }, has_v }
+}
+
+pub fn render_log(v: &LogValue, canonical: bool, unknown_lines: bool, rng: &mut StdRng) -> Vec<u8> {
+    let mut out = String::new();
+    let filler = |out: &mut String, rng: &mut StdRng| {
+        if canonical { return; }
+        for _ in 0..rng.gen_range(0..3) {
+            if unknown_lines && rng.gen_bool(0.5) {
+                out.push_str(["\n", "c\n", "foo bar\n", " s SATISFIABLE\n", "x 1 2 0\n"][rng.gen_range(0..5)]);
+            } else {
+                out.push_str(["c hello\n", "c \n", "c s SATISFIABLE\n", "c v 1 0\n"][rng.gen_range(0..4)]);
+            }
+        }
+    };
+    let s_line = |out: &mut String| {
+        if v.has_s { out.push_str(match v.sat { Some(true) => "s SATISFIABLE\n", Some(false) => "s UNSATISFIABLE\n", None => "s UNKNOWN\n" }); }
+    };
+    let s_first = canonical || rng.gen_bool(0.5);
+    filler(&mut out, rng);
+    if s_first { s_line(&mut out); filler(&mut out, rng); }
+    if v.has_v {
+        // split the value lines arbitrarily
+        let mut toks: Vec<String> = v.lits.iter().map(|l| l.to_string()).collect();
+        toks.push("0".to_string());
+        out.push_str("v");
+        let mut fresh = true;
+        for (i, t) in toks.iter().enumerate() {
+            out.push_str(if canonical { " " } else { [" ", "  ", " \t"][rng.gen_range(0..3)] });
+            out.push_str(t);
+            fresh = false;
+            if !canonical && i + 1 < toks.len() && rng.gen_range(0..3) == 0 {
+                out.push('\n');
+                filler(&mut out, rng);
+                out.push_str("v");
+                fresh = true;
+            }
+        }
+        let _ = fresh;
+        out.push('\n');
+        filler(&mut out, rng);
+    }
+    if !s_first { s_line(&mut out); filler(&mut out, rng); }
+    out.into_bytes()
+}
